@@ -307,7 +307,12 @@ func (r *inFlightRequest) onFrameReceived(f *frame.Frame) error {
 		}
 		return nil
 	} else if closed {
-		return fmt.Errorf("%v: request closed", r)
+		// the request's context is done: either the request was closed already (then this is a no-op) or only the
+		// connection context was cancelled and nobody has closed the request yet; it may already have left the table
+		// that the handler sweeps on close, so it must be completed here
+		err := fmt.Errorf("%v: request closed", r)
+		r.close(err)
+		return err
 	} else {
 		err := fmt.Errorf("%v: too many pending incoming frames: %d", r, len(r.incoming))
 		r.close(err)
